@@ -117,6 +117,23 @@ def classify(G, model):
     be = model.cls("nsl/ast/__init__.py", "BinaryExpression")
     init = be.own_method("__init__")
     params = [a.arg for a in init.args.args[1:]]
+    # which constructor parameter plays which role is read off what the constructor does with it, not off its name:
+    # the two parameters that become the child list are (left, right) in that order, the remaining one is the operation
+    role_be = {}
+    for c_ in ast.walk(init):
+        if isinstance(c_, ast.Call) and last_attr(c_) == "__init__" and c_.args and isinstance(c_.args[0], ast.List) and len(c_.args[0].elts) == 2:
+            l_, r_ = c_.args[0].elts
+            if isinstance(l_, ast.Name) and isinstance(r_, ast.Name):
+                role_be[l_.id], role_be[r_.id] = "left", "right"
+    for p_ in params:
+        role_be.setdefault(p_, "op")
+    ae_init = model.cls("nsl/ast/__init__.py", "AssignmentExpression").own_method("__init__")
+    role_ae = {}
+    for c_ in ast.walk(ae_init):
+        if isinstance(c_, ast.Call) and last_attr(c_) == "__init__" and len(c_.args) == len(params):
+            for bp, a_ in zip(params, c_.args):
+                if isinstance(a_, ast.Name):
+                    role_ae[a_.id] = role_be[bp]
     kinds = {}
     for P in G.productions:
         stmts, pname = select_stmts(P.func, len(P.syms))
@@ -150,14 +167,15 @@ def classify(G, model):
                     roles = {}
                     if which == "BinaryExpression":
                         names = params
+                        role_of = role_be
                     else:
-                        ae = model.cls("nsl/ast/__init__.py", "AssignmentExpression").own_method("__init__")
-                        names = [a.arg for a in ae.args.args[1:]] + [a.arg for a in ae.args.kwonlyargs]
+                        names = [a.arg for a in ae_init.args.args[1:]] + [a.arg for a in ae_init.args.kwonlyargs]
+                        role_of = role_ae
                     for nm, a in zip(names, n.args):
-                        roles[nm] = a
+                        roles[role_of.get(nm, nm)] = a
                     for kw in n.keywords:
-                        roles[kw.arg] = kw.value
-                    opn = roles.get("op", roles.get("operation"))
+                        roles[role_of.get(kw.arg, kw.arg)] = kw.value
+                    opn = roles.get("op")
                     op_i = None
                     if opn is not None:
                         for s in ast.walk(opn):
@@ -423,7 +441,10 @@ def run(model, col, tier):
     be = model.cls("nsl/ast/__init__.py", "BinaryExpression")
     init = be.own_method("__init__")
     sup = [c for c in ast.walk(init) if isinstance(c, ast.Call) and last_attr(c) == "__init__" and c.args]
-    okorder = any(isinstance(c.args[0], ast.List) and [unparse(e) for e in c.args[0].elts] == ["left", "right"] for c in sup)
+    # (which parameter is `left` / `right` is *defined* by its position in this list - see classify(); here: it is a list of two distinct parameters)
+    bparams = [a.arg for a in init.args.args[1:]]
+    okorder = any(isinstance(c.args[0], ast.List) and len(c.args[0].elts) == 2 and all(isinstance(e, ast.Name) and e.id in bparams for e in c.args[0].elts)
+                  and len({e.id for e in c.args[0].elts}) == 2 for c in sup)
     col.check(okorder, "R08.2", "nsl/ast/__init__.py::BinaryExpression.__init__ children order",
               "children = [left, right]", "children are not stored as [left, right]", "nsl/ast/__init__.py", init)
     for meth, want in (("GetLeft", 0), ("GetRight", 1)):
@@ -443,7 +464,7 @@ def run(model, col, tier):
                   model.module_assign("nsl/op.py", "_op_str_map"))
     strtoop = model.func("nsl/op.py", "StrToOp")
     rets = [r for r in ast.walk(strtoop) if isinstance(r, ast.Return)]
-    col.check(len(rets) == 1 and unparse(rets[0].value).replace(" ", "") in ("_op_str_map[op]",), "R08.2",
+    col.check(len(rets) == 1 and unparse(rets[0].value).replace(" ", "") in (f"_op_str_map[{strtoop.args.args[0].arg}]",), "R08.2",
               "nsl/op.py::StrToOp", "returns _op_str_map[op]", f"returns {unparse(rets[0].value) if rets else None}", "nsl/op.py", strtoop)
 
     # ---- R08.5 the tree printer shows the grouping --------------------------
